@@ -11,6 +11,7 @@ from zipfile import Path
 
 from chameleon.astutil import Symbol
 from chameleon.compiler import ExpressionEngine
+from chameleon.compiler import mangle
 from chameleon.i18n import simple_translate
 from chameleon.loader import TemplateLoader
 from chameleon.tal import RepeatDict
@@ -584,7 +585,8 @@ class Macros:
         self.template = template
 
     def __getitem__(self, name: str) -> Macro:
-        name = name.replace('-', '_')
+        # (the name the compiler gave the macro's render function)
+        name = mangle(name)
         self.template.cook_check()
 
         try:
